@@ -260,7 +260,11 @@ func (t *TabularGraph) GetEdge(key string, load bool) *gdbi.Edge {
 								}
 							}
 						}
-						return out
+						if out != nil {
+							return out
+						}
+						// not in this table: another edge table may map the same label between the same vertex types
+						continue
 					}
 					log.Errorf("Row Error: %s", err)
 				}
